@@ -6,9 +6,14 @@ From Coq Require Import ExtrOcamlBasic.
 From stdpp Require Import base option list numbers fin_maps nmap.
 From Verif.Base Require Import Bytes.
 From Verif.Topics Require Import Predefined.
+From Verif.Codec Require Import Packets Decode Encode RefParse.
+From Verif.Checkers Require Import ChkCodec.
 
 Definition nmap_empty : topic_map := ∅.
 Definition nmap_insert (i : N) (n : bytes) (m : topic_map) : topic_map := <[i := n]> m.
 Definition nmap_lookup (i : N) (m : topic_map) : option bytes := m !! i.
 
-Extraction "model.ml" beq nmap_empty nmap_insert nmap_lookup get_name get_ids get_id pd_add pd_merge.
+Extraction "model.ml"
+  beq nmap_empty nmap_insert nmap_lookup get_name get_ids get_id pd_add pd_merge
+  read_packet read_dgram pack ref_parse ref_split wf_pkt pkt_eqb chk_C21 chk_C22 chk_short
+  encode_short decode_short is_short_topic.
